@@ -1231,6 +1231,8 @@ impl DtlsInner {
         trace!("Session keys derived (Server)");
         ctx.session_crypto = Some(create_session_crypto(keys.clone())?);
         ctx.session_keys = Some(keys);
+        #[cfg(rustrtc_verif)]
+        crate::verif_hooks::dtls::log_keys(Arc::as_ptr(&self.state) as usize, is_client, ctx.session_keys.as_ref());
 
         Ok(())
     }
@@ -1664,6 +1666,8 @@ impl DtlsInner {
         };
         ctx.session_crypto = Some(create_session_crypto(keys.clone())?);
         ctx.session_keys = Some(keys);
+        #[cfg(rustrtc_verif)]
+        crate::verif_hooks::dtls::log_keys(Arc::as_ptr(&self.state) as usize, is_client, ctx.session_keys.as_ref());
 
         let mut flight_records: Vec<Vec<u8>> = Vec::new();
 
@@ -2266,5 +2270,13 @@ impl HandshakeContext {
             expected_remote_fingerprint,
             server_key_exchange_verified: false,
         }
+    }
+}
+
+#[cfg(rustrtc_verif)]
+impl DtlsTransport {
+    /// Identifies this transport in `verif_hooks::dtls::take_keys`.
+    pub fn verif_instance_id(&self) -> usize {
+        Arc::as_ptr(&self.inner.state) as usize
     }
 }
